@@ -100,3 +100,113 @@ mut('c07-attach-unguarded', ['C07', 'C17'], 'exp attaches grad_fn unconditionall
 mut('c07-concat-all', ['C07'], 'concat result requires grad only if ALL inputs do',
     [(F, "    req_grad = any([t.requires_grad for t in x])\n    out = Tensor(out_data, device=x[0].device, children=inputs, requires_grad=req_grad, operation=\"Concat\")",
       "    req_grad = all([t.requires_grad for t in x])\n    out = Tensor(out_data, device=x[0].device, children=inputs, requires_grad=req_grad, operation=\"Concat\")")], rules=['C07.PROP'])
+
+# ------------------------------------------------------------------------------------------------ C03 / C04 / C17 (Tensor.backward)
+TRAV = """            if expanded:
+                ordered_nodes.append(node)
+            elif node not in visited_nodes:
+                visited_nodes.add(node)
+                stack.append((node, True))
+"""
+mut('c03-preorder-append', ['C03', 'C17'], 'node appended when first seen (pre-order): a node reachable by two paths of different length is swept too early',
+    [(T, TRAV, """            if expanded:
+                pass
+            elif node not in visited_nodes:
+                visited_nodes.add(node)
+                ordered_nodes.append(node)
+                stack.append((node, True))
+""")], rules=['C03.TOPO', 'C17.TOPO'])
+mut('c03-forward-sweep', ['C03'], 'sweep runs over the order list un-reversed', [(T, "enumerate(reversed(ordered_nodes))", "enumerate(ordered_nodes)")], rules=['C03.TOPO'])
+mut('c03-no-visited-mark', ['C03', 'C17'], 'visited mark dropped: shared sub-graphs are expanded (and swept) once per path',
+    [(T, "                visited_nodes.add(node)\n                stack.append((node, True))", "                stack.append((node, True))")], rules=['C03.TOPO', 'C17.TOPO'])
+mut('c03-expanded-pushed-last', ['C03'], '(node, True) pushed after the children: popped first, i.e. appended before its children',
+    [(T, """                stack.append((node, True))
+                for child in reversed(node._children):
+                    # leaves accumulate across calls; a non-leaf buffer only holds the gradient
+                    # propagating in the current sweep, so it always starts from zero
+                    if child.requires_grad and (child._grad is None or not child.is_leaf):
+                        child.zero_()
+                    stack.append((child, False))
+""", """                for child in reversed(node._children):
+                    # leaves accumulate across calls; a non-leaf buffer only holds the gradient
+                    # propagating in the current sweep, so it always starts from zero
+                    if child.requires_grad and (child._grad is None or not child.is_leaf):
+                        child.zero_()
+                    stack.append((child, False))
+                stack.append((node, True))
+""")], rules=['C03.TOPO'])
+mut('c03-grad-fn-also-in-traversal', ['C03', 'C17'], 'grad_fn() additionally invoked while traversing',
+    [(T, "            if expanded:\n                ordered_nodes.append(node)\n", "            if expanded:\n                ordered_nodes.append(node)\n                if node.grad_fn is not None and node._retain_grad: node.grad_fn()\n")], rules=['C03.ONCE', 'C17.ONCE'], accept_incomplete=True)
+mut('c03-release-before-use', ['C03', 'C04'], 'buffer released before the node\'s grad_fn consumed it',
+    [(T, """            if node.grad_fn is not None:
+                #print(node.grad_fn)
+                node.grad_fn()
+            if node is not self and not node.is_leaf and not node._retain_grad and not retain_grads__:
+                del node._grad
+                node._grad = None
+""", """            if node is not self and not node.is_leaf and not node._retain_grad and not retain_grads__:
+                del node._grad
+                node._grad = None
+            if node.grad_fn is not None:
+                #print(node.grad_fn)
+                node.grad_fn()
+""")], rules=['C03.CONSUME', 'C04.CONSUME'])
+mut('c04-release-leaves', ['C04', 'C07', 'C17'], 'release predicate forgets the leaf test: leaves lose their accumulated gradient',
+    [(T, "if node is not self and not node.is_leaf and not node._retain_grad and not retain_grads__:", "if node is not self and not node._retain_grad and not retain_grads__:")], rules=['C04.RELEASE', 'C07.RELEASE', 'C17.RELEASE'])
+mut('c04-release-ignores-retain-flag', ['C04', 'C07'], 'release ignores the global retain_grads flag',
+    [(T, "if node is not self and not node.is_leaf and not node._retain_grad and not retain_grads__:", "if node is not self and not node.is_leaf and not node._retain_grad:")], rules=['C04.RELEASE', 'C07.RELEASE'])
+mut('c03-tensor-eq', ['C03'], 'Tensor gains a value-based __eq__', [(T, "    def __len__(self) -> int:\n        return len(self.data)\n", "    def __len__(self) -> int:\n        return len(self.data)\n\n    def __eq__(self, other):\n        return isinstance(other, Tensor) and np.array_equal(self.data, other.data)\n\n    def __hash__(self):\n        return hash(self.data.tobytes())\n")], rules=['C03.IDENTITY'])
+ZG = "if child.requires_grad and (child._grad is None or not child.is_leaf):"
+mut('c04-stale-nonleaf (revert of fix)', ['C04'], 'buffers created only when absent: a gradient left on a non-leaf by an earlier call is propagated again',
+    [(T, ZG, "if child.requires_grad and child._grad is None:")], rules=['C04.NONLEAF-RESET'])
+mut('c04-always-zero', ['C04'], 'every reachable tensor that requires grad is zeroed: leaves no longer accumulate across backward calls',
+    [(T, ZG, "if child.requires_grad:")], rules=['C04.LEAF-ACCUMULATE'])
+mut('c04-zero-frozen', ['C04', 'C07'], 'buffers created for operands that do not require grad', [(T, ZG, "if child._grad is None or not child.is_leaf:")], rules=['C04.LEAF-ACCUMULATE', 'C07'])
+SEED = """        if self.is_leaf and self._grad is not None:
+            self._grad += seed
+        else:
+            self._grad = seed
+"""
+mut('c04-root-overwrite', ['C04'], 'root seed always assigned: a leaf root called twice keeps g, not 2g', [(T, SEED, "        self._grad = seed\n")], rules=['C04.LEAF-ACCUMULATE'])
+mut('c04-seed-aliased', ['C04', 'C11'], 'seed is the caller\'s array itself (no copy)', [(T, "seed = grad.data.astype(self.dtype) # owned copy, never the caller's array", "seed = grad.data")], rules=['C04.SEED-OWNED', 'C11.GRAD-OWNED'])
+mut('c04-seed-astype-nocopy', ['C04', 'C11'], 'seed converted with copy=False (aliases the caller when dtypes agree)', [(T, "seed = grad.data.astype(self.dtype) # owned", "seed = grad.data.astype(self.dtype, copy=False) # owned")], rules=['C04.SEED-OWNED', 'C11.GRAD-OWNED'])
+mut('c04-seed-setter (revert of fix)', ['C04', 'C10', 'C11'], 'root seeded through the grad setter with the caller\'s tensor',
+    [(T, """        seed = grad.data.astype(self.dtype) # owned copy, never the caller's array
+""" + SEED, "        self.grad = grad\n")], rules=['C04.SEED-OWNED', 'C04.LEAF', 'C10', 'C11'])
+mut('c04-optimizer-zero-frozen (revert)', ['C04', 'C07', 'C08'], 'Optimizer.zero_grad gives frozen parameters a buffer',
+    [(O, "        for p in self.parameters:\n            if p.requires_grad: p.zero_()", "        for p in self.parameters:\n            p.zero_()")], rules=['C04.RESET', 'C07', 'C08.FROZEN'])
+mut('c04-foreign-writer', ['C04'], 'a module method clears gradients by writing _grad directly', [(M, "            if p.requires_grad: p.zero_()", "            if p.requires_grad: p._grad = None")], rules=['C04.WRITERS', 'C04.RESET'])
+mut('c17-recursive-traversal (revert of fix)', ['C17'], 'recursive depth-first traversal: RecursionError at depth ~1000',
+    [(T, """        stack = [(self, False)]
+        while stack:
+            node, expanded = stack.pop()
+            if expanded:
+                ordered_nodes.append(node)
+            elif node not in visited_nodes:
+                visited_nodes.add(node)
+                stack.append((node, True))
+                for child in reversed(node._children):
+                    # leaves accumulate across calls; a non-leaf buffer only holds the gradient
+                    # propagating in the current sweep, so it always starts from zero
+                    if child.requires_grad and (child._grad is None or not child.is_leaf):
+                        child.zero_()
+                    stack.append((child, False))
+""", """        def visit_node(node):
+            if node not in visited_nodes:
+                visited_nodes.add(node)
+                for child in node._children:
+                    if child.requires_grad and (child._grad is None or not child.is_leaf):
+                        child.zero_()
+                    visit_node(child)
+                ordered_nodes.append(node)
+        visit_node(self)
+""")], rules=['C17.NORECURSE'])
+mut('c03-twin-recursive-is-topological', ['C03'], 'the recursive post-order idiom is a correct topological order (C03 must accept it)',
+    MUTANTS[-1]['edits'], expect='silent')
+mut('c17-children-always (revert of fix)', ['C17'], 'children stored on every result', [(T, "self._children = children if req_grad else ()", "self._children = children")], rules=['C17.NOHISTORY'])
+mut('c17-visited-list', ['C17'], 'visited structure is a list (quadratic traversal)', [(T, "visited_nodes = set()", "visited_nodes = []"), (T, "visited_nodes.add(node)", "visited_nodes.append(node)")], rules=['C17.LINEAR', 'C17.TOPO'])
+mut('c03-twin-slice-reverse', ['C03', 'C17', 'C04'], 'sweep written as ordered_nodes[::-1]', [(T, "enumerate(reversed(ordered_nodes))", "enumerate(ordered_nodes[::-1])")], expect='silent')
+mut('c04-twin-release-demorgan', ['C04', 'C17', 'C07'], 'release predicate rewritten with De Morgan',
+    [(T, "if node is not self and not node.is_leaf and not node._retain_grad and not retain_grads__:", "if not (node is self or node.is_leaf or node._retain_grad or retain_grads__):")], expect='silent')
+mut('c04-twin-zero-guard-nested', ['C04', 'C03'], 'zero guard written as nested ifs',
+    [(T, "                    if child.requires_grad and (child._grad is None or not child.is_leaf):\n                        child.zero_()", "                    if child.requires_grad:\n                        if not child.is_leaf or child._grad is None:\n                            child.zero_()")], expect='silent')
